@@ -246,3 +246,5 @@ func parseNodeAt(s string) (datamodel.Node, string, error) {
 	}
 	return nil, "", fmt.Errorf("bad node text %q", s)
 }
+
+func basicInt(i int64) datamodel.Node { return basicnode.NewInt(i) }
